@@ -1919,6 +1919,11 @@ method or constructor of some type."""
                     param.scope = ast.PARAM_SCOPE_ASYNC
                     param.transfer = ast.PARAM_TRANSFER_NONE
 
+        # (closure PARAM) and (destroy PARAM) are for the cases the
+        # autodetection below cannot handle: they take precedence over it
+        annotated_closure = [p for p in params if p.closure_name is not None]
+        annotated_destroy = [p for p in params if p.destroy_name is not None]
+
         callback_param = None
         for param in params:
             argnode = self._transformer.lookup_typenode(param.type)
@@ -1933,13 +1938,15 @@ method or constructor of some type."""
             if callback_param is None:
                 continue
             if is_destroynotify:
-                callback_param.destroy_name = param.argname
+                if callback_param not in annotated_destroy:
+                    callback_param.destroy_name = param.argname
                 callback_param.scope = ast.PARAM_SCOPE_NOTIFIED
                 callback_param.transfer = ast.PARAM_TRANSFER_NONE
             elif (param.type.is_equiv(ast.TYPE_ANY) and
                   param.argname is not None and
                   param.argname.endswith('data')):
-                callback_param.closure_name = param.argname
+                if callback_param not in annotated_closure:
+                    callback_param.closure_name = param.argname
 
         for param in params:
             # By convention, closure user_data parameters are always nullable.
